@@ -229,7 +229,11 @@ def run(ctx, only_cases=None):
             nfail += 1
             per_key[o["key"]] = per_key.get(o["key"], 0) + 1
             if per_key[o["key"]] <= 1:
-                ctx.violation(o["key"], "real code, mode %s: %s" % (c["mode"], o["prop_msg"]), {"case": c, "observed": o})
+                key = o["key"]
+                # the two repaired defects are known findings only on a tree that still has the pinned shape
+                if (key == "tunnel-close-double-body" and tunnel_fixed) or (key == "traffic-double-report" and traffic_fixed):
+                    key += ":on-repaired-tree"
+                ctx.violation(key, "real code, mode %s: %s" % (c["mode"], o["prop_msg"]), {"case": c, "observed": o})
     leaks = [(c, o) for c, o in done if o.get("leak")]
 
     # ---- model vs implementation on the deterministic modes ----
